@@ -286,6 +286,17 @@ def template_program(k, r):
            "  type own_t is (lo, mid, hi);", "  subtype idx_t is natural range 0 to 7;"]
     if own_rec:
         gpd += ["  type pair_t is record", "    a : elem_t;", "    b : own_t;", "  end record;"]
+    gpd += ["  subtype esub_t is elem_t;", "  type earr_t is array (0 to 2) of elem_t;", "  type eptr_t is access elem_t;",
+            "  type node_t;", "  type link_t is access node_t;",
+            "  type node_t is record", "    value : elem_t;", "    nxt : link_t;", "  end record;",
+            "  type holder_t is record", "    p : eptr_t;", "    v : elem_t;", "  end record;",
+            "  type rarr_t is array (0 to 1) of holder_t;", "  type efile_t is file of elem_t;",
+            "  type cell_t is protected", "    procedure put (x : elem_t);", "    impure function get return elem_t;", "  end protected;",
+            # (`alias ealias_t is elem_t;` is valid here, but every instance is then rejected with "No association of alias
+            #  'ealias_t'": reported to the coordinator as a candidate finding, not exercised until decided)
+            "  constant three : earr_t;",
+            "  function head_of (l : link_t) return elem_t;", "  procedure push (l : inout link_t; x : in elem_t);",
+            "  function wrap (x : elem_t) return holder_t;"]
     gpd += ["  constant dflt : elem_t;", "  constant level : own_t;", "  constant idx : idx_t;"]
     if own_rec:
         gpd += ["  constant both : pair_t;"]
@@ -294,6 +305,13 @@ def template_program(k, r):
            "  constant level : own_t := %s;" % r.choice(["lo", "mid", "hi"]), "  constant idx : idx_t := %d;" % r.randrange(8)]
     if own_rec:
         gpb += ["  constant both : pair_t := (a => first_v, b => level);"]
+    gpb += ["  type cell_t is protected body", "    variable store : elem_t := first_v;",
+            "    procedure put (x : elem_t) is", "    begin", "      store := x;", "    end procedure;",
+            "    impure function get return elem_t is", "    begin", "      return store;", "    end function;", "  end protected body;",
+            "  constant three : earr_t := (others => first_v);",
+            "  function head_of (l : link_t) return elem_t is", "  begin", "    return l.value;", "  end function;",
+            "  procedure push (l : inout link_t; x : in elem_t) is", "  begin", "    l := new node_t'(value => x, nxt => l);", "  end procedure;",
+            "  function wrap (x : elem_t) return holder_t is", "  begin", "    return (p => null, v => x);", "  end function;"]
     gpb += ["  function pick (x : elem_t; y : elem_t; s : own_t) return elem_t is", "  begin",
             "    if s = level then return x; else return y; end if;", "  end function;", "end package body;"]
     files = [("t_sup.vhd", support), ("t_gp.vhd", "\n".join(gpd) + "\n"), ("t_gpb.vhd", "\n".join(gpb) + "\n")]
@@ -327,6 +345,25 @@ def template_program(k, r):
         body.append("  s%d <= %spick(x => c%d, y => %sdflt, s => %slevel) when %s else %sdflt;"
                     % (j, pre, j, pre, pre, cond, pre))
         body.append("  assert i%d + %sidx < 16%s;" % (j, pre, (" and level = l%d" % j) if pre == "" else ""))
+        # every type-forming construct over the generic type, used through the instance in contexts typed by the actual
+        ul.append("  constant ea%d : %searr_t := %sthree;" % (j, pre, pre))
+        ul.append("  constant eb%d : %s := %sthree(1);" % (j, ty, pre))
+        ul.append("  constant ec%d : %searr_t := (%s, %s, %sdflt);" % (j, pre, v1, v2, pre))
+        ul.append("  constant ed%d : %sesub_t := %s;" % (j, pre, v2))
+        ul.append("  constant ef%d : %s := %swrap(%s).v;" % (j, ty, pre, v1))
+        ul.append("  shared variable cell%d : %scell_t;" % (j, pre))
+        pbody = ["  px%d : process" % j, "    variable ptr : %septr_t;" % pre, "    variable head : %slink_t;" % pre,
+                 "    variable hold : %sholder_t;" % pre, "    variable ra : %srarr_t;" % pre, "    variable x : %s := %s;" % (ty, v1),
+                 "    file ff : %sefile_t;" % pre, "  begin",
+                 "    ptr := new %s'(%s);" % (ty, v2), "    x := ptr.all;", "    ptr.all := %s;" % v1,
+                 "    %spush(head, x);" % pre, "    %spush(l => head, x => %s);" % (pre, v2),
+                 "    x := head.value;", "    x := head.nxt.value;", "    head.nxt.value := x;", "    x := %shead_of(head);" % pre,
+                 "    hold := (p => ptr, v => x);", "    x := hold.v;", "    x := hold.p.all;", "    ra(0) := hold;", "    x := ra(1).v;",
+                 "    x := ra(0).p.all;", "    cell%d.put(x);" % j, "    x := cell%d.get;" % j, "    cell%d.put(%s);" % (j, v2)]
+        if op:
+            pbody += ["    x := ptr.all %s head.value;" % op, "    x := head.nxt.value %s %s;" % (op, v2), "    x := ra(0).v %s hold.p.all;" % op]
+        pbody += ["    wait;", "  end process;"]
+        body += pbody
     ul += ["begin"] + body + ["end architecture;"]
     files.append(("t_user.vhd", "\n".join(ul) + "\n"))
     return lib, files
